@@ -386,7 +386,10 @@ func c20Batch(c *Check, tier string) int {
 			continue
 		}
 		nviol++
-		sc := c20Minimise(h.sc, k)
+		sc := h.sc
+		if mayMinimise() {
+			sc = c20Minimise(h.sc, k)
+		}
 		v := &kit.Violation{Property: "C20", Oracle: strings.SplitN(k, ":", 2)[0], Key: k, Detail: h.f.detail, Seed: seed, LogHash: h.fp, Scenario: mustJSON(sc), Minimised: sc != h.sc}
 		path, err := kit.WriteReplay(v)
 		if err != nil {
